@@ -172,6 +172,30 @@ def harness_build(bins, release=False, crate="harness", timeout=3000, features=N
     return rc == 0, out, {b: os.path.join(TARGET, prof, b) for b in bins}
 
 # ---------------------------------------------------------------- cases in coqc
+def mem_available_gb():
+    """Memory this process may still use: MemAvailable, capped by the cgroup limit if there is one."""
+    avail = 8.0
+    try:
+        for line in open("/proc/meminfo"):
+            if line.startswith("MemAvailable:"):
+                avail = int(line.split()[1]) / 1048576.0
+    except Exception: pass
+    for lim, cur in (("/sys/fs/cgroup/memory.max", "/sys/fs/cgroup/memory.current"),
+                     ("/sys/fs/cgroup/memory/memory.limit_in_bytes", "/sys/fs/cgroup/memory/memory.usage_in_bytes")):
+        try:
+            l = open(lim).read().strip()
+            if l != "max":
+                room = (int(l) - int(open(cur).read().strip())) / 1073741824.0
+                avail = min(avail, room)
+        except Exception: pass
+    return max(1.0, avail)
+
+def case_workers(texts):
+    """coqc needs roughly 0.3 GB plus 0.6 GB per MB of case text; never start more evaluators than fit."""
+    if not texts: return 1
+    per = 0.3 + max(len(t) for t in texts) / 1.0e6 * 0.6
+    return max(1, min(NCPU, len(texts), int(mem_available_gb() * 0.7 / per)))
+
 def run_case_files(prop, texts, timeout=1500, stack_unlimited=True):
     """texts: list of complete .v sources, each printing with `Eval vm_compute in (...)` one or
     more `list N` values. Evaluated in parallel; returns list of (ok, [list of int lists], raw)."""
@@ -191,7 +215,7 @@ def run_case_files(prop, texts, timeout=1500, stack_unlimited=True):
             body = m.group(1)
             vals.append([int(x) for x in re.findall(r"-?\d+", re.sub(r"%[NZ]|%nat", "", body))])
         return (True, vals, out)
-    with ThreadPoolExecutor(max_workers=NCPU) as ex:
+    with ThreadPoolExecutor(max_workers=case_workers(texts)) as ex:
         return list(ex.map(one, paths))
 
 # ---------------------------------------------------------------- known findings
